@@ -1113,6 +1113,8 @@ class Env:
                 return (f'({name} ' + ' '.join(al) + ')', Kind.NUM)
             if name == 'abs':
                 return (f'(absf {self.as_num(*ex(args[0]), node)})', Kind.NUM)
+            if name in ('min', 'max') and len(args) == 2:
+                return (f'(p{name} {self.as_num(*ex(args[0]), node)} {self.as_num(*ex(args[1]), node)})', Kind.NUM)
             if name == 'float':
                 return (f'(pyfloat {self.as_num(*ex(args[0]), node)})', Kind.NUM)
             if name == 'int':
@@ -1508,6 +1510,14 @@ class Env:
                 if res is None:
                     return None
                 return res if isinstance(op, ast.Eq) else (not res)
+            # M.shape == (r, c)
+            if isinstance(l, ast.Attribute) and l.attr == 'shape' and isinstance(r, ast.Tuple) \
+                    and isinstance(op, (ast.Eq, ast.NotEq)):
+                m = self.mexpr(l.value)
+                dims = [self.const_int(e) for e in r.elts]
+                if m is not None and None not in dims:
+                    res = (tuple(dims) == (m.r, m.c))
+                    return res if isinstance(op, ast.Eq) else (not res)
             # M.shape[i] == n
             if isinstance(l, ast.Subscript) and isinstance(l.value, ast.Attribute) and l.value.attr == 'shape' \
                     and isinstance(op, (ast.Eq, ast.NotEq)):
